@@ -58,7 +58,7 @@ structure Cfg where
 def Cfg.asIs : Cfg := ⟨false, false, false, false⟩
 def Cfg.fixed : Cfg := ⟨true, true, true, true⟩
 /-- the variant of `/repo` the correspondence driver is compared against. -/
-def Cfg.current : Cfg := ⟨true, true, true, false⟩  -- applied in /repo: 48745d4 (dedupAmend), 85f4ab0 (cloneMeta, cloneSlices)
+def Cfg.current : Cfg := ⟨true, true, true, true⟩  -- applied in /repo: 48745d4 (dedupAmend), 85f4ab0 (cloneMeta, cloneSlices), guardInflight (fix of D-16)
 
 structure Entry where
   req     : List VIdx
